@@ -148,7 +148,8 @@ fn pick_fault(rng: &mut Rng) -> ShapeFault {
     match rng.below(12) {
         0..=4 => ShapeFault::Data { k: 1 + rng.below(4) as u8, delta: *rng.pick(&[-1, 1, -1, 1, 2, -2]) },
         5 => ShapeFault::Data { k: 0, delta: 1 },
-        6 | 7 => ShapeFault::Out { delta: *rng.pick(&[-1i64, 1, 1, -1]) },
+        6 => ShapeFault::Out { delta: *rng.pick(&[-1i64, 1, 1, -1]) },
+        7 => ShapeFault::OutChunks { k: 1 + rng.below(4) as u8, dk: *rng.pick(&[-1i8, 1, -1, 1, 2, -2]) },
         8 => ShapeFault::ScratchZero,
         9 => ShapeFault::ScratchMinus1,
         10 => ShapeFault::DataAndOut { k: 1 + rng.below(3) as u8, delta: *rng.pick(&[-1, 1]), odelta: *rng.pick(&[-1i64, 1]) },
@@ -577,6 +578,9 @@ fn gen_c03(rng: &mut Rng, tier: Tier, miri: bool) -> Case {
         let spec = if rng.chance(0.3) && !miri {
             // row-length residues of the AVX column butterflies
             Spec::Planned(*rng.pick(&[PK::Avx, PK::Auto]), *rng.pick(&pools(nmax.min(1 << 16)).avxrem))
+        } else if rng.chance(0.25) {
+            // the fixed-size kernels of every planner (2x-unrolled SIMD butterflies included)
+            Spec::Planned(*rng.pick(pks_for(elem)), *rng.pick(&pools(512).bfly))
         } else {
             gen_spec(rng, nmax, elem, if miri { 30 } else { 30 }, if tier.thorough { 3 } else { 2 })
         };
@@ -592,6 +596,14 @@ fn gen_c03(rng: &mut Rng, tier: Tier, miri: bool) -> Case {
         for chunk in 0..k {
             let t = rng.below(nthreads as u64) as usize;
             case.threads[t].push(Op::SplitChunk { inst: InstRef::Shared(inst), entry, buf: 0, chunk });
+        }
+    }
+    if !miri {
+        // the full grid of shape faults (as in C09), judged here for "panics, and never touches memory it was not given"
+        for t in 0..nthreads {
+            if rng.chance(0.5) {
+                case.threads[t].push(Op::ShapeGrid { inst: InstRef::Shared(rng.below(ninst as u64) as u16), entry: *rng.pick(&ENTRIES), kmax: 2 + rng.below(2) as u8, seed: rng.next() });
+            }
         }
     }
     for t in 0..nthreads {
